@@ -10,6 +10,7 @@ import TsVerif.C06.SiblingNamedNext
 import TsVerif.C06.NamedFcb
 import TsVerif.C06.CursorFcb
 import TsVerif.C06.FieldWitness
+import TsVerif.C06.CursorParent
 #print axioms TsVerif.C06.child_spec
 #print axioms TsVerif.C06.flattenKids_length
 #print axioms TsVerif.C06.child_count_spec
@@ -114,3 +115,18 @@ import TsVerif.C06.FieldWitness
 #print axioms TsVerif.C06.cursor_first_child_for_spec
 #print axioms TsVerif.C06.nest_port
 #print axioms TsVerif.C06.child_by_field_id_full_false
+#print axioms TsVerif.C06.goto_parent_spec
+#print axioms TsVerif.C06.gotoChild_shape
+#print axioms TsVerif.C06.goto_parent_undoes_child
+#print axioms TsVerif.C06.gotoParent_topVisible
+#print axioms TsVerif.C06.depth_spec
+#print axioms TsVerif.C06.depth_child
+#print axioms TsVerif.C06.depth_parent
+#print axioms TsVerif.C06.gotoParent_preserves_inv
+#print axioms TsVerif.C06.parentOnPath_chain
+#print axioms TsVerif.C06.parentGo_chain
+#print axioms TsVerif.C06.cursor_parent_is_parentOnPath
+#print axioms TsVerif.C06.cursor_parent_is_parentOnPath_inv
+#print axioms TsVerif.C06.next_internal_shape
+#print axioms TsVerif.C06.next_sibling_keeps_parent
+#print axioms TsVerif.C06.next_sibling_depth
